@@ -559,3 +559,16 @@ def leaf_type(prog, adt_path, path):
     if o is None:
         return None
     return prog.adts[o[0]]["variants"][0]["fields"][o[1]]["ty"]
+
+
+def const_reprs(prog, v):
+    """evaluated values (rustc's rendering) of the crate's named constants a value refers to"""
+    out = []
+    for t in find_terms(v, lambda t: isinstance(t, tuple) and len(t) == 2 and t[0] == "const" and isinstance(t[1], str)):
+        for k, c in prog.consts.items():
+            if k.endswith("::" + t[1]) or k == t[1] or k.endswith(t[1]):
+                if c.get("repr") is not None:
+                    out.append(c["repr"])
+                elif c.get("val") is not None:
+                    out.append(str(c["val"]))
+    return out
